@@ -707,6 +707,16 @@ class Lib(Interp):
                 if p.fork(n == 0):
                     raise PyExc("IndexError", None, "pop from empty list")
                 ii = simp(n - 1)
+                # items == Concat(prefix, Unit(x)): the popped element is x and the rest is the prefix (kept syntactic so
+                # that the tag and class of x stay known)
+                ts = simp(t)
+                if z3.is_app(ts) and ts.decl().kind() == z3.Z3_OP_SEQ_CONCAT and ts.num_args() >= 2 and \
+                        z3.is_app(ts.arg(ts.num_args() - 1)) and ts.arg(ts.num_args() - 1).decl().kind() == z3.Z3_OP_SEQ_UNIT:
+                    last = ts.arg(ts.num_args() - 1).arg(0)
+                    rest = ts.arg(0) if ts.num_args() == 2 else z3.Concat(*[ts.arg(i) for i in range(ts.num_args() - 1)])
+                    self.elem_fact(l, last)
+                    p.hwrite("list.items", l.ref, simp(rest))
+                    return s_val(last)
             v = simp(t[ii])
             self.elem_fact(l, v)
             p.hwrite("list.items", l.ref, simp(z3.Concat(z3.SubSeq(t, 0, ii), z3.SubSeq(t, ii + 1, n - ii - 1))))
